@@ -61,12 +61,18 @@ def build(r, name, n=None, generics=None):
     spec.enum_private = r.random() < 0.4 and spec.dvis not in (None,)
     spec.vis = "" if spec.enum_private else "pub"
     spec.dstyle = r.choice([None, "snake_case", "SCREAMING-KEBAB-CASE", "title_case"])
+    spec.no_derive = r.random() < 0.15
     spec.dderives = ["strum::EnumIter"] + r.sample(["Hash", "PartialOrd, Ord", "strum::Display", "strum::EnumString", "strum::VariantNames", "strum::AsRefStr", "strum::EnumCount"], r.randint(0, 5))
     if spec.dstyle and not any("Display" in d for d in spec.dderives):
         spec.dderives.append("strum::Display")
+    if spec.no_derive:
+        # no derive(..) list at all: the other enum-level items (name, vis, plain pass-through attributes) must still apply
+        spec.dderives = []
+        spec.dstyle = None
+        spec.pass_repr = r.choice([None, "u16", "u32"]) if spec.repr is None else None
     spec.dsplit = r.random() < 0.5
     spec.custom = {}
-    if any("Display" in d or "EnumString" in d or "AsRefStr" in d for d in spec.dderives):
+    if any("Display" in d or "EnumString" in d or "AsRefStr" in d for d in spec.dderives) and not spec.no_derive:
         for i, v in enumerate(spec.variants):
             if r.random() < 0.2:
                 spec.custom[i] = "custom-%d" % i
@@ -81,7 +87,10 @@ def build(r, name, n=None, generics=None):
         items.append("name(%s)" % spec.dname)
     if spec.dvis is not None:
         items.append("vis(%s)" % spec.dvis)
-    items.append("derive(%s)" % ", ".join(spec.dderives))
+    if spec.dderives:
+        items.append("derive(%s)" % ", ".join(spec.dderives))
+    if getattr(spec, "pass_repr", None):
+        items.append("repr(%s)" % spec.pass_repr)      # a plain pass-through attribute for the generated enum only
     if spec.dstyle:
         items.append("strum(serialize_all = %s)" % rs_str(spec.dstyle))
     if r.random() < 0.3:
@@ -94,7 +103,7 @@ def build(r, name, n=None, generics=None):
         spec.extra_enum_attrs = ["#[strum_discriminants(%s)]" % ", ".join(items)]
     gen.add_noise(r, spec, skip=("std_default",))
     rv = gen.rawify(r, spec, explicit_names=False)
-    if rv is not None and spec.variants.index(rv) not in spec.custom:
+    if rv is not None and spec.variants.index(rv) not in spec.custom and not spec.no_derive:
         i = spec.variants.index(rv)
         spec.custom[i] = "raw-custom-%d" % i
         rv.extra_attrs.append("#[strum_discriminants(strum(to_string = %s))]" % rs_str(spec.custom[i]))
@@ -111,7 +120,12 @@ def glue(spec):
     rty = spec.int_repr or "isize"
     has_into = spec.dvis in (None, "pub")
     inner = spec.render() + "\n"
-    inner += "pub fn first() -> %s { <%s as strum::IntoEnumIterator>::iter().next().unwrap() }\n" % (dn, dn)
+    nod = getattr(spec, "no_derive", False)
+    v0 = spec.variants[0]
+    if nod:
+        inner += "pub fn first() -> %s { <%s as From<&%s>>::from(&%s) }\n" % (dn, dn, ty, v0.ctor(spec.path(), v0.default_exprs()))
+    else:
+        inner += "pub fn first() -> %s { <%s as strum::IntoEnumIterator>::iter().next().unwrap() }\n" % (dn, dn)
     inner += "pub fn work(m: &mut vmon::Mon) {\n"
     inner += "    type R = %s;\n" % rty
     inner += "    " + samples_vec(spec, list(range(len(spec.variants)))) + "\n"
@@ -134,6 +148,17 @@ def glue(spec):
         inner += "        let tag: R = unsafe { *(e as *const %s as *const R) };\n" % ty
         inner += "        m.expect_eq(\"disc\", \"d as R == tag(e)\", &subj, &((d1 as R) as i128), &(tag as i128), true);\n"
     inner += "    }\n"
+    if nod:
+        if getattr(spec, "pass_repr", None):
+            inner += "    m.expect_eq(\"disc-type\", \"size_of::<D>() under a pass-through repr\", \"repr\", &std::mem::size_of::<%s>(), &std::mem::size_of::<%s>(), true);\n" % (dn, spec.pass_repr)
+        inner += "}\n"
+        body = "mod inner {\n    use super::*;\n" + inner + "}\n"
+        body += "pub fn drive(m: &mut vmon::Mon) {\n"
+        body += "    let d: inner::%s = inner::first();\n" % dn
+        body += "    m.expect_str(\"disc-type\", \"nameable from parent module\", %s, &format!(\"{:?}\", d), %s, true);\n" % (rs_str(dn), rs_str(names[0]))
+        body += "    inner::work(m);\n"
+        body += "}\n"
+        return body
     inner += "    let listed: Vec<String> = <%s as strum::IntoEnumIterator>::iter().map(|d| format!(\"{:?}\", d)).collect();\n" % dn
     inner += "    let want: Vec<String> = names.iter().map(|s| s.to_string()).collect();\n"
     inner += "    m.expect_eq(\"disc-type\", \"D::iter() (requested derive)\", \"variant list\", &listed, &want, true);\n"
